@@ -559,6 +559,32 @@ def _unique(ctx):
            'len(%s)' % alpha[0] in dt.values(),
            'encoder and decoder share default alphabet and base: %s / %s'
            % (dt, df), construct='base-n defaults')
+    # the digit written for a value the encoder special-cases is that
+    # value's own digit: `if num == 0: return alphabet[0]` (any other index
+    # collides with the single-digit encoding of that index)
+    params = tb.params()
+    for sub in K.walk_no_nested(tb.node):
+        if not (isinstance(sub, ast.If) and isinstance(sub.test, ast.Compare)
+                and len(sub.test.ops) == 1 and
+                isinstance(sub.test.ops[0], ast.Eq)):
+            continue
+        sides = (sub.test.left, sub.test.comparators[0])
+        lit = [s for s in sides if isinstance(s, ast.Constant) and
+               isinstance(s.value, int)]
+        var = [s for s in sides if isinstance(s, ast.Name) and params and
+               s.id == params[0]]
+        if len(lit) != 1 or len(var) != 1:
+            continue
+        for stmt in sub.body:
+            if isinstance(stmt, ast.Return) and isinstance(
+                    stmt.value, ast.Subscript):
+                idx = stmt.value.slice
+                ctx.ob('C15.2', tb, stmt,
+                       isinstance(idx, ast.Constant) and
+                       idx.value == lit[0].value,
+                       'the value %s is written as its own digit (%s)'
+                       % (lit[0].value, N.txt(stmt.value)),
+                       construct='base-n special-cased value')
 
 
 # ---------------------------------------------------------------------------
@@ -589,6 +615,7 @@ def _events(ctx, modname, base_name, enum_name):
            construct='%s covers every event class' % enum_name,
            file=mod.rel)
     base_slots = [s for s in (base.slots or []) if s != 'event_type']
+    _dispatch(ctx, base)
     for cls in sorted(classes, key=lambda c: c.name):
         own = cls.slots or []
         init = index.find_method(cls, '__init__')
@@ -652,10 +679,23 @@ def _events(ctx, modname, base_name, enum_name):
         if len(own) > 1:
             # the last field may itself contain the separator: the split is
             # bounded to len(fields) - 1 cuts
+            # slots the constructor stores through int(): their text never
+            # contains a separator
+            numeric = set()
+            for sub in K.walk_no_nested(init.node):
+                if isinstance(sub, ast.Assign) and isinstance(
+                        sub.value, ast.Call) and \
+                        N.txt(sub.value.func) == 'int' and isinstance(
+                            sub.targets[0], ast.Attribute) and \
+                        K.name_is(sub.targets[0].value, 'self'):
+                    numeric.add(sub.targets[0].attr)
+
             def lossless(sp):
                 # (a) at most len-1 cuts, (b) exact unpacking into len
-                # names (anything else raises), or (c) the remainder is
-                # re-joined with the same separator
+                # names when every field is a number (a free-text field
+                # holding the separator would make the decoder raise and
+                # the event be dropped), or (c) the remainder is re-joined
+                # with the same separator
                 if len(sp.args) == 2 and isinstance(
                         sp.args[1], ast.Constant) and \
                         sp.args[1].value == len(own) - 1:
@@ -663,7 +703,8 @@ def _events(ctx, modname, base_name, enum_name):
                 for asg in K.walk_no_nested(fd.node):
                     if isinstance(asg, ast.Assign) and asg.value is sp and \
                             isinstance(asg.targets[0], ast.Tuple) and \
-                            len(asg.targets[0].elts) == len(own):
+                            len(asg.targets[0].elts) == len(own) and \
+                            set(own) <= numeric:
                         return True
                 sep = N.txt(sp.args[0]) if sp.args else None
                 return any(isinstance(j, ast.Call) and K.is_meth(j, 'join')
@@ -683,6 +724,75 @@ def _events(ctx, modname, base_name, enum_name):
                    'splits on %r' % (cls.name, sorted(set(seps)),
                                      sorted(ssep)),
                    construct='%s separator' % cls.name)
+
+
+def _dispatch(ctx, base):
+    """The decoder of the base class hands every field, under its own name,
+    to the from_data of the class the type tag selects and returns what that
+    decoder built."""
+    fd = base.methods.get('from_data')
+    ctx.require(fd is not None, '%s.from_data' % base.name, rule='C15.3')
+    params = [p for p in fd.params() if p != 'cls']
+    calls = [s for s in K.walk_no_nested(fd.node)
+             if isinstance(s, ast.Call) and K.is_meth(s, 'from_data')]
+    ctx.require(len(calls) == 1, 'the per-class decoder call of %s.from_data'
+                % base.name, rule='C15.3', func=fd)
+    call = calls[0]
+    passed = dict((k.arg, K.rtxt(fd, k.value)) for k in call.keywords)
+    for pos, arg in enumerate(call.args):
+        if pos < len(params):
+            passed[params[pos]] = K.rtxt(fd, arg)
+    ctx.ob('C15.3', fd, call,
+           all(passed.get(p) == p for p in params),
+           'every decoded field goes to the per-class decoder under its own '
+           'name (%s)' % sorted(passed.items()),
+           construct='%s.from_data dispatch arguments' % base.name)
+    # the receiver is the class the type tag maps to
+    recv = K.recv(call)
+    rdef = K.rtxt(fd, recv)
+    sel = [s for s in K.walk_no_nested(fd.node)
+           if isinstance(s, ast.Call) and
+           K.is_meth(s, '_class_from_type')]
+    ok = bool(sel) and all(
+        len(s.args) == 1 and 'event_type' in params and
+        K.rtxt(fd, s.args[0]) == 'event_type' for s in sel)
+    holders = set()
+    for sub in K.walk_no_nested(fd.node):
+        if isinstance(sub, ast.Assign) and sub.value in sel and \
+                isinstance(sub.targets[0], ast.Name):
+            holders.add(sub.targets[0].id)
+    ctx.ob('C15.3', fd, call,
+           ok and (recv in sel or (isinstance(recv, ast.Name) and
+                                   recv.id in holders) or
+                   '_class_from_type(event_type)' in rdef),
+           'the decoder used is the one of the class selected by the type '
+           'tag (%s)' % rdef,
+           construct='%s.from_data dispatch receiver' % base.name)
+    # ... and its result is what the caller gets
+    holders = set()
+    for sub in K.walk_no_nested(fd.node):
+        if isinstance(sub, ast.Assign) and sub.value is call and \
+                isinstance(sub.targets[0], ast.Name):
+            holders.add(sub.targets[0].id)
+    rets = [s for s in K.walk_no_nested(fd.node)
+            if isinstance(s, ast.Return)]
+    good = [r for r in rets if r.value is call or (
+        isinstance(r.value, ast.Name) and r.value.id in holders)]
+    ctx.ob('C15.3', fd, good[0] if good else call, bool(good),
+           'the event built by the per-class decoder is returned',
+           construct='%s.from_data result' % base.name)
+    # a holder of the result is overwritten only by None (the parse-failure
+    # path)
+    for sub in K.walk_no_nested(fd.node):
+        if isinstance(sub, ast.Assign) and sub.value is not call and \
+                isinstance(sub.targets[0], ast.Name) and \
+                sub.targets[0].id in holders:
+            ctx.ob('C15.3', fd, sub,
+                   isinstance(sub.value, ast.Constant) and
+                   sub.value.value is None,
+                   'the decoded event is replaced only by None (%s)'
+                   % N.txt(sub.value),
+                   construct='%s.from_data result overwritten' % base.name)
 
 
 def _template_fields(expr):
